@@ -180,6 +180,21 @@ impl RtpsWriterProxy {
         }
     }
 
+    pub fn irrelevant_change_range_set(
+        &mut self,
+        first_seq_num: SequenceNumber,
+        end_seq_num: SequenceNumber,
+    ) {
+        // Same outcome as calling irrelevant_change_set for every sequence number in
+        // first_seq_num..end_seq_num (end excluded) without iterating over the range, whose
+        // size is controlled by the remote writer: the numbers up to available_changes_max
+        // have no effect and from there on every number of the range is consecutive.
+        let next_seq_num = self.available_changes_max() + 1;
+        if first_seq_num <= next_seq_num && next_seq_num < end_seq_num {
+            self.highest_received_change_sn = end_seq_num - 1;
+        }
+    }
+
     pub fn lost_changes_update(&mut self, first_available_seq_num: SequenceNumber) {
         // FOREACH change IN this.changes_from_writer
         // SUCH-THAT ( change.status == UNKNOWN OR change.status == MISSING
